@@ -145,6 +145,8 @@ func (e *Exec) cqReq(op Op) string {
 		return fmt.Sprintf("(RCommit %d)", op.V)
 	case "newversion", "branch":
 		return fmt.Sprintf("(RNewVersion %d %d)", op.V, op.Child)
+	case "dagmerge":
+		return fmt.Sprintf("(RDagMerge %d %s %d)", op.V, cqNs(op.Labels), op.Child)
 	}
 	return "RObserve"
 }
@@ -220,6 +222,16 @@ func (e *Exec) cqHistory() string {
 	return fmt.Sprintf("(H (G %d %s %s) %s [\n   %s])", g.BS, cq3(g.Dim), lib.CoqBool(g.Lo), cqBoxes(e.h.Layout), strings.Join(steps, ";\n   "))
 }
 
+// v0: body 30 (block-spanning) and body 7; v1 = branch of v0, merges 7 into 30; v2 = newversion of
+// v0, nothing done; v3 = repo merge with first parent v2 and second parent v1; observed at v3.
+const dagmergeCase = `{"kind": "dagmerge", "g": {"bs": 16, "org": [0, 0, 0], "dim": [2, 1, 1]},
+ "layout": [{"p": [0, 0, 0], "d": [20, 8, 8], "l": 30}, {"p": [2, 2, 2], "d": [3, 3, 3], "l": 7}],
+ "ops": [{"k": "ingest", "v": 0, "via": "blocks", "blocks": [[0, 0, 0], [1, 0, 0]]},
+         {"k": "commit", "v": 0}, {"k": "branch", "v": 0, "child": 1}, {"k": "newversion", "v": 0, "child": 2},
+         {"k": "merge", "v": 1, "target": 30, "labels": [7]}, {"k": "commit", "v": 1}, {"k": "commit", "v": 2},
+         {"k": "dagmerge", "v": 2, "labels": [1], "child": 3}, {"k": "observe", "v": 3}],
+ "pts": [[1, 1, 1], [3, 3, 3]]}`
+
 const header = `From DV Require Import Base.Prelude Model.LabelMapRun.
 Local Open Scope N_scope.
 Local Notation H := Build_history.
@@ -288,6 +300,22 @@ func emitRun(o lib.Opts) {
 	if o.N > 0 {
 		n = o.N
 	}
+	// fixed corpus: the canonical history of finding C08-dagmerge (a conflict-free repo merge whose
+	// non-first parent merged a body), judged by the dedicated class 12
+	{
+		var h History
+		if err := json.Unmarshal([]byte(dagmergeCase), &h); err != nil {
+			fmt.Fprintln(os.Stderr, "corpus:", err)
+			os.Exit(2)
+		}
+		e, err := newExec(&h)
+		if err != nil {
+			fmt.Fprintln(os.Stderr, "setup:", err)
+			os.Exit(2)
+		}
+		e.run()
+		addHistory(&h, e)
+	}
 	master := lib.NewRand(o.Seed)
 	for k := 0; k < n; k++ {
 		rng := lib.NewRand(master.U64())
@@ -302,7 +330,7 @@ func emitRun(o lib.Opts) {
 		addHistory(h, e)
 	}
 	run.Finish("history",
-		"random proofreading histories on 16^3-block labelmap instances (2-8 blocks; background, multi-block and sub-block supervoxels, labels up to 2^63): ingest by POST blocks / POST raw / ingest-supervoxels+indices+mappings, then about ten of merge, cleave, split-supervoxel, renumber, mutating raw write, body split, a few requests violating a contract on purpose, interleaved with commit / newversion / branch; every read endpoint of the property observed after each request at the touched version and one more; a history is distinct by its operation multiset, geometry and content hash",
+		"one fixed history of kind dagmerge (conflict-free repo merge whose non-first parent merged a body, read at the merge child: finding C08-dagmerge, class 12); random proofreading histories on 16^3-block labelmap instances (2-8 blocks; background, multi-block and sub-block supervoxels, labels up to 2^63): ingest by POST blocks / POST raw / ingest-supervoxels+indices+mappings, then about ten of merge, cleave, split-supervoxel, renumber, mutating raw write, body split, a few requests violating a contract on purpose, interleaved with commit / newversion / branch; every read endpoint of the property observed after each request at the touched version and one more; a history is distinct by its operation multiset, geometry and content hash",
 		tail)
 }
 
